@@ -424,7 +424,8 @@ def join(tokens, rnd=None, comments=False, crlf=False, final_comment=False, coll
         x = rnd.random()
         if comments and x < 0.12:
             cno[0] += 1
-            txt = rnd.choice([" c%d" % cno[0], "c%d ;; é" % cno[0], " c%d \"quoted\" 'x'" % cno[0], ""])
+            txt = rnd.choice([" c%d" % cno[0], "c%d ;; é" % cno[0], " c%d \"quoted\" 'x'" % cno[0], "", "; doubled %d" % cno[0], ";; banner %d ;;;" % cno[0],
+                              " c%d trailing blanks  " % cno[0], "\tc%d after a tab" % cno[0]])
             if collect is not None:
                 collect.append(txt)
             return " ;" + txt + nl
